@@ -20,6 +20,7 @@ limitations under the License.
 #include <cmath>
 #include <cstdlib>
 #include <cstring>
+#include <functional>
 #include <iomanip>
 #include <limits>
 #include <numeric>
@@ -557,13 +558,10 @@ UniqueNames findCnUnitsNames(const XmlNodePtr &node)
     return names;
 }
 
-NameList findComponentCnUnitsNames(const ComponentConstPtr &component)
+void mergeMathCnUnitsNames(const std::string &mathContent, UniqueNames &nodeUnitsNames)
 {
-    UniqueNames nodeUnitsNames;
-    // Inspect the MathML in this component for any specified constant <cn> units.
-    std::string mathContent = component->math();
     if (mathContent.empty()) {
-        return {};
+        return;
     }
     std::vector<XmlDocPtr> mathDocs = multiRootXml(mathContent);
     for (const auto &doc : mathDocs) {
@@ -571,6 +569,18 @@ NameList findComponentCnUnitsNames(const ComponentConstPtr &component)
         if ((rootNode != nullptr) && rootNode->isMathmlElement("math")) {
             nodeUnitsNames.merge(findCnUnitsNames(rootNode));
         }
+    }
+}
+
+NameList findComponentCnUnitsNames(const ComponentConstPtr &component)
+{
+    UniqueNames nodeUnitsNames;
+    // Inspect the MathML in this component, and in the test and reset values of its resets, for any specified constant <cn> units.
+    mergeMathCnUnitsNames(component->math(), nodeUnitsNames);
+    for (size_t index = 0; index < component->resetCount(); ++index) {
+        auto reset = component->reset(index);
+        mergeMathCnUnitsNames(reset->testValue(), nodeUnitsNames);
+        mergeMathCnUnitsNames(reset->resetValue(), nodeUnitsNames);
     }
 
     NameList unitsNames(nodeUnitsNames.size());
@@ -593,20 +603,19 @@ void findAndReplaceCnUnitsNames(const XmlNodePtr &node, const std::string &oldNa
     }
 }
 
-void findAndReplaceComponentCnUnitsNames(const ComponentPtr &component, const std::string &oldName, const std::string &newName)
+bool replaceMathCnUnitsNames(const std::string &mathContent, const std::function<void(const XmlNodePtr &)> &replace, std::string &newMathContent)
 {
-    std::string mathContent = component->math();
-    if (mathContent.empty()) {
-        return;
-    }
     bool contentModified = false;
-    std::string newMathContent;
+    newMathContent.clear();
+    if (mathContent.empty()) {
+        return false;
+    }
     std::vector<XmlDocPtr> mathDocs = multiRootXml(mathContent);
     for (const auto &doc : mathDocs) {
         auto rootNode = doc->rootNode();
         if ((rootNode != nullptr) && rootNode->isMathmlElement("math")) {
             auto originalMath = rootNode->convertToString();
-            findAndReplaceCnUnitsNames(rootNode, oldName, newName);
+            replace(rootNode);
             auto newMath = rootNode->convertToString();
             newMathContent += newMath;
             if (newMath != originalMath) {
@@ -614,10 +623,30 @@ void findAndReplaceComponentCnUnitsNames(const ComponentPtr &component, const st
             }
         }
     }
+    return contentModified;
+}
 
-    if (contentModified) {
+void replaceComponentCnUnitsNames(const ComponentPtr &component, const std::function<void(const XmlNodePtr &)> &replace)
+{
+    // The math of the component, and the test and reset values of its resets.
+    std::string newMathContent;
+    if (replaceMathCnUnitsNames(component->math(), replace, newMathContent)) {
         component->setMath(newMathContent);
     }
+    for (size_t index = 0; index < component->resetCount(); ++index) {
+        auto reset = component->reset(index);
+        if (replaceMathCnUnitsNames(reset->testValue(), replace, newMathContent)) {
+            reset->setTestValue(newMathContent);
+        }
+        if (replaceMathCnUnitsNames(reset->resetValue(), replace, newMathContent)) {
+            reset->setResetValue(newMathContent);
+        }
+    }
+}
+
+void findAndReplaceComponentCnUnitsNames(const ComponentPtr &component, const std::string &oldName, const std::string &newName)
+{
+    replaceComponentCnUnitsNames(component, [&](const XmlNodePtr &rootNode) { findAndReplaceCnUnitsNames(rootNode, oldName, newName); });
 }
 
 void findAndReplaceCnUnitsNames(const XmlNodePtr &node, const StringStringMap &names)
@@ -637,29 +666,10 @@ void findAndReplaceCnUnitsNames(const XmlNodePtr &node, const StringStringMap &n
 
 void findAndReplaceComponentCnUnitsNames(const ComponentPtr &component, const StringStringMap &names)
 {
-    std::string mathContent = component->math();
-    if (mathContent.empty() || names.empty()) {
+    if (names.empty()) {
         return;
     }
-    bool contentModified = false;
-    std::string newMathContent;
-    std::vector<XmlDocPtr> mathDocs = multiRootXml(mathContent);
-    for (const auto &doc : mathDocs) {
-        auto rootNode = doc->rootNode();
-        if ((rootNode != nullptr) && rootNode->isMathmlElement("math")) {
-            auto originalMath = rootNode->convertToString();
-            findAndReplaceCnUnitsNames(rootNode, names);
-            auto newMath = rootNode->convertToString();
-            newMathContent += newMath;
-            if (newMath != originalMath) {
-                contentModified = true;
-            }
-        }
-    }
-
-    if (contentModified) {
-        component->setMath(newMathContent);
-    }
+    replaceComponentCnUnitsNames(component, [&](const XmlNodePtr &rootNode) { findAndReplaceCnUnitsNames(rootNode, names); });
 }
 
 void findAndReplaceComponentsCnUnitsNames(const ComponentPtr &component, const std::string &oldName, const std::string &newName)
